@@ -210,7 +210,32 @@ var c05EdgeForms = []string{
 	"[{{ x -}}{{ v }}{{- x }}]", "[{% if true -%}{{ v }}{%- endif %}]", "[{{ v }}{%- comment %} c {% endcomment -%}{{ v }}]",
 }
 
+// shapes in which § is literal text or a raw body that is NOT adjacent to a hyphen:
+// every hyphen faces blank literal text of its own, which it consumes entirely
+// (C13's exact case); second column: what must come out
+var c05TextForms = [][2]string{
+	{"[§{% assign q = 1 -%} \n {%- assign r = 2 %}]", "[§]"},
+	{"[{% raw %}§{% endraw -%}  {%- assign q = 1 %}]", "[§]"},
+	{"[{% assign q = 1 -%} \n {%- assign r = 2 %}§]", "[§]"},
+	{"§{% if true -%} {%- endif %}", "§"},
+}
+
 var c05Edge = hx.Define("c05.value-beside-hyphen", func(c *c05EdgeCase, s *hx.Sub) *hx.Violation {
+	if c.Form >= len(c05EdgeForms) {
+		f := c05TextForms[(c.Form-len(c05EdgeForms))%len(c05TextForms)]
+		src, want := strings.ReplaceAll(f[0], "§", c.V), strings.ReplaceAll(f[1], "§", c.V)
+		o := hx.Render(src, map[string]any{"e": "", "x": "X"})
+		if o.Panic != nil {
+			return hx.V("panic@"+o.Panic.Site, "%q: %v", src, o.Panic)
+		}
+		if !o.OK() || o.Out != want {
+			return hx.V("c05:text-trimmed", "%q renders %s; the text %q is not adjacent to any hyphen (every hyphen faces blank text of its own) and is to come out exactly: %q", src, o, c.V, want)
+		}
+		if strings.TrimSpace(c.V) != c.V {
+			s.NTKey(src)
+		}
+		return nil
+	}
 	src := c05EdgeForms[c.Form%len(c05EdgeForms)]
 	o := hx.Render(src, map[string]any{"v": c.V, "x": "X"})
 	if o.Panic != nil {
@@ -332,8 +357,8 @@ func TestC05(t *testing.T) {
 		}
 	})
 
-	edge := c05Edge.On(col, "exhaustive: nine shapes in which an object printing v stands directly next to a hyphenated object or tag (no literal text between them), x values v with white space at either edge (spaces, tabs, newlines, NBSP, only white space, none); metamorphic oracle: same output as the template without the hyphens, i.e. v is emitted exactly. Non-trivial: v has white space at an edge; distinct by shape+value", true)
-	for fi := range c05EdgeForms {
+	edge := c05Edge.On(col, "exhaustive: nine shapes in which an object printing v stands directly next to a hyphenated object or tag (no literal text between them), and four shapes in which literal text or a raw body v is separated from the nearest hyphens by blank text that those hyphens face and consume, x values v with white space at either edge (spaces, tabs, newlines, NBSP, only white space, none); metamorphic oracle: same output as the template without the hyphens, i.e. v is emitted exactly. Non-trivial: v has white space at an edge; distinct by shape+value", true)
+	for fi := 0; fi < len(c05EdgeForms)+len(c05TextForms); fi++ {
 		for vi, v := range []string{"  val  ", "val", " \tlead", "trail\n\n", " ", "", "\u00a0nb\u00a0", "a b", "\n"} {
 			if env.Mine(fi*16 + vi) {
 				edge.Run(&c05EdgeCase{V: v, Form: fi})
